@@ -3,7 +3,7 @@
    comparison used by the correspondence check.  Definitions only. *)
 From Coq Require Import PrimFloat FloatOps ZArith List Bool.
 Import ListNotations.
-Require Import PyBase Solver SolverF Linker.
+Require Import PyBase Solver SolverF SolveAll Linker LinkerRange.
 Open Scope Z_scope.
 
 (* ---- scripted linker hooks: actions over the joint values (component 0 = the linker's own core,
@@ -77,6 +77,22 @@ Definition f_linker_solve (ss : subscripts) (hs : lscripts) (sel : option (list 
   linker_solve_M float PrimFloat.sub PrimFloat.abs PrimFloat.ltb fzero
                  (ls_sev n ss) (ls_hpre n hs) (ls_hbefore n hs) (ls_hafter n hs) (ls_hpost n hs) sel o ps s.
 
+(* BaseLinker(submodels).solve(start=, end=): lags / leads come from the constructor model applied to the submodels'
+   class-level LAGS / LEADS (all submodels share the list span `labels`); labels are integers, located with list.index *)
+Definition f_linker_solve_span (ss : subscripts) (hs : lscripts) (sel : option (list sid)) (o : fopts)
+                               (labels : list Z) (start end_ : option Z) (s : flstate)
+  : flstate * (lexn + span_result Z) :=
+  let n := core_len s in
+  let infos := map (fun ic => (fst ic, mkSub (mkSpan SList labels) (Z.of_nat (lags (c_desc (snd ic))))
+                                             (Z.of_nat (leads (c_desc (snd ic)))))) (l_subs s) in
+  match ctor_lags_leads infos (match infos with [] => Some (mkSpan SList labels) | _ => None end) with
+  | Raise e => (s, inl (LExn e))
+  | Ret (labs, lg, ld) =>
+      linker_solve_span_M float PrimFloat.sub PrimFloat.abs PrimFloat.ltb fzero
+                          (ls_sev n ss) (ls_hpre n hs) (ls_hbefore n hs) (ls_hafter n hs) (ls_hpost n hs)
+                          Z (locate_index labs) lg ld labs start end_ sel o s
+  end.
+
 (* ---- comparison with the implementation's observation ---- *)
 Definition levent_eqb (a b : levent) : bool :=
   match a, b with
@@ -114,6 +130,15 @@ Definition solve_res_eqb (a b : lexn + list bool) : bool :=
   | _, _ => false
   end.
 
+Definition visit_eqb (a b : Z * Z * bool) : bool :=
+  Z.eqb (fst (fst a)) (fst (fst b)) && Z.eqb (snd (fst a)) (snd (fst b)) && Bool.eqb (snd a) (snd b).
+Definition span_res_eqb (a b : lexn + span_result Z) : bool :=
+  match a, b with
+  | inl x, inl y => lexn_eqb x y
+  | inr (n, vs), inr (m, ws) => Nat.eqb n m && list_eqb visit_eqb vs ws
+  | _, _ => false
+  end.
+
 Definition ctor_res_eqb (a b : outcome (pspan * Z * Z)) : bool :=
   match a, b with
   | Raise x, Raise y => exn_eqb x y
@@ -128,6 +153,9 @@ Inductive lcase : Type :=
           (xs : flstate) (xo : lout)
 | CSolve (ss : subscripts) (hs : lscripts) (sel : option (list sid)) (o : fopts) (ps : list Z) (s : flstate)
          (xs : flstate) (xr : lexn + list bool)
+(* solve(start=, end=) by label: returned (len, [(label, index, solved)]) and final state *)
+| CSolveSpan (ss : subscripts) (hs : lscripts) (sel : option (list sid)) (o : fopts) (labels : list Z)
+             (start end_ : option Z) (s : flstate) (xs : flstate) (xr : lexn + span_result Z)
 | CCtor (subs : list (sid * subinfo)) (span : option pspan) (xr : outcome (pspan * Z * Z))
 (* the same scripted model once wrapped in a linker and once solved directly *)
 | CTwin (ss : subscripts) (sel : option (list sid)) (o : fopts) (t : Z) (s : flstate) (xs : flstate) (xo : lout)
@@ -139,6 +167,8 @@ Definition check_lcase (c : lcase) : bool :=
       let '(s', r) := f_linker_solve_t ss hs sel o t s in lstate_eqb s' xs && lout_eqb r xo
   | CSolve ss hs sel o ps s xs xr =>
       let '(s', r) := f_linker_solve ss hs sel o ps s in lstate_eqb s' xs && solve_res_eqb r xr
+  | CSolveSpan ss hs sel o labels start end_ s xs xr =>
+      let '(s', r) := f_linker_solve_span ss hs sel o labels start end_ s in lstate_eqb s' xs && span_res_eqb r xr
   | CCtor subs span xr => ctor_res_eqb (linker_ctor_M subs span) xr
   | CTwin ss sel o t s xs xo m =>
       (let '(s', r) := f_linker_solve_t ss [] sel o t s in lstate_eqb s' xs && lout_eqb r xo)
